@@ -28,6 +28,7 @@ func checkC01(c *Ctx) {
 	c.Rule("C01/R8", "SetConfig marks the key internal: every write of a configuration value in SetConfig is to an entry whose File flag is set false on the same path (the entry comes from ensureConfig(key, false) or File is stored false)")
 
 	c.Rule("C01/R11", "what the writer may emit as a key line the reader takes as one: nothing the reader's key recogniser tests before decoding the first character rejects a line beginning with a lower-case letter (same rule as C02/R12)")
+	c.Rule("C01/R13", "the filter command forwards every kind of record the writer can write: for each kind in Writer.Write's type switch (the syntax error apart) a path leads from the fetch to Writer.Write that agrees with the command's own type tests for that kind")
 	c.Rule("C01/R12", "one writer per output stream: the filter command creates its benchfmt.Writer outside every loop (a writer only knows the configuration it has itself written; a fresh one in mid-stream drops the 'key:' deletion lines, so keys of an earlier input leak into later results on read-back)")
 	p := mustLoad(c, loadOpts{}, "./benchfmt", "./cmd/benchfilter")
 	c01Writer(c, p)
@@ -38,6 +39,7 @@ func checkC01(c *Ctx) {
 	c04R1(c, p, "C01/R10")
 	c02KeyStart(c, p, "C01/R11")
 	c01OneWriter(c, p)
+	c01Forwarded(c, p)
 }
 
 func c01Owns(c *Ctx, p *Prog) {
@@ -1046,4 +1048,84 @@ func c01OneWriter(c *Ctx, p *Prog) {
 		})
 	}
 	c.Floor(R, "writers created by the filter command", n, 1)
+}
+
+// c01Forwarded (C01/R13): the filter command passes on every kind of record the writer knows how to write. The kinds
+// are read off Writer.Write's own type switch; for each kind other than the syntax error, there must be a path from the
+// call that fetches the record to the call of Writer.Write on which every type test of the record agrees with that
+// kind (a test for the kind itself succeeds, a test for another concrete kind fails).
+func c01Forwarded(c *Ctx, p *Prog) {
+	const R = "C01/R13"
+	write := p.Method("benchfmt", "Writer", "Write")
+	if write == nil {
+		c.Undecided(R, "anchor:Writer.Write", "", "not found")
+		return
+	}
+	var kinds []types.Type
+	eachInstr(write, func(_ *ssa.BasicBlock, in ssa.Instruction) {
+		if ta, ok := in.(*ssa.TypeAssert); ok && ta.X == ssa.Value(write.Params[1]) {
+			if _, isIface := ta.AssertedType.Underlying().(*types.Interface); !isIface {
+				kinds = append(kinds, ta.AssertedType)
+			}
+		}
+	})
+	n := 0
+	for _, fn := range p.Funcs("cmd/benchfilter") {
+		eachInstr(fn, func(wb *ssa.BasicBlock, in ssa.Instruction) {
+			wc, ok := in.(*ssa.Call)
+			if !ok || wc.Call.StaticCallee() != write {
+				return
+			}
+			rec := wc.Call.Args[1]
+			src, ok := rec.(ssa.Instruction)
+			if !ok {
+				return
+			}
+			for _, kt := range kinds {
+				if strings.HasSuffix(kt.String(), "SyntaxError") {
+					continue
+				}
+				n++
+				key := fmt.Sprintf("%s:forwards %s", fnName(fn), types.TypeString(kt, func(*types.Package) string { return "" }))
+				// path search from the fetch to the write, answering the record's type tests for kind kt
+				seen := map[*ssa.BasicBlock]bool{}
+				var reach func(b *ssa.BasicBlock) bool
+				reach = func(b *ssa.BasicBlock) bool {
+					if b == wb {
+						return true
+					}
+					if seen[b] {
+						return false
+					}
+					seen[b] = true
+					if ifi, ok := b.Instrs[len(b.Instrs)-1].(*ssa.If); ok {
+						if ex, ok := ifi.Cond.(*ssa.Extract); ok && ex.Index == 1 {
+							if ta, ok := ex.Tuple.(*ssa.TypeAssert); ok && ta.X == rec {
+								if _, isIface := ta.AssertedType.Underlying().(*types.Interface); !isIface {
+									if types.Identical(ta.AssertedType, kt) {
+										return reach(b.Succs[0])
+									}
+									return reach(b.Succs[1])
+								}
+							}
+						}
+					}
+					for _, s := range b.Succs {
+						if reach(s) {
+							return true
+						}
+					}
+					return false
+				}
+				ok := false
+				if src.Block() == wb {
+					ok = true
+				} else {
+					ok = reach(src.Block())
+				}
+				c.Check(ok, R, key, p.pos(wc.Pos()), "a record of this kind can reach the writer", "records of this kind are fetched but can never reach Writer.Write: the writer knows how to write them, the command drops them (unit metadata lines vanish from the filtered output, so a reader of that output no longer knows the units' better direction or assumptions)")
+			}
+		})
+	}
+	c.Floor(R, "record kinds forwarded by the filter command", n, 2)
 }
